@@ -16,7 +16,9 @@ struct World {
 
 // SHA-256 as an uninterpreted function (collision freedom is NOT assumed anywhere;
 // statements are "equal hash", never "equal bytes", unless stated).
-uninterp spec fn sha256(c: Seq<u8>) -> Seq<u8>;
+uninterp spec fn sha256_raw(c: Seq<u8>) -> Seq<u8>;
+// ... normalised to 32 bytes, so that `sha256(c).len() == 32` needs no axiom
+spec fn sha256(c: Seq<u8>) -> Seq<u8> { if sha256_raw(c).len() == 32 { sha256_raw(c) } else { Seq::new(32, |i: int| 0u8) } }
 // text form of a 32-byte hash; defined and proved injective in unit A
 uninterp spec fn enc62_sha(s: Seq<u8>) -> Seq<char>;
 // clock model 1 ("distinct writes carry distinct mtimes"): the mtime determines the bytes
@@ -134,11 +136,12 @@ proof fn rename_keeps(w: World, w2: World, a: Seq<char>, b: Seq<char>)
 proof fn kept_refl(a: World) ensures kept(a, a) {}
 proof fn kept_trans(a: World, b: World, c: World) requires kept(a, b), kept(b, c) ensures kept(a, c) {}
 
-// ASSUMED (proved in unit A as lemma_enc62_injective): the text form is injective on hashes
-#[verifier::external_body]
-proof fn enc62_injective(a: Seq<u8>, b: Seq<u8>) requires enc62_sha(a) == enc62_sha(b) ensures a == b {}
 
-proof fn cpath_inj(dir: Seq<char>, a: Seq<u8>, b: Seq<u8>) requires cpath(dir, a) == cpath(dir, b) ensures a == b
+// ASSUMED here, PROVED in unit A (lemma_enc62_injective, label L-A-injective): the text form is injective on 32-byte hashes
+#[verifier::external_body]
+proof fn enc62_injective(a: Seq<u8>, b: Seq<u8>) requires a.len() == 32, b.len() == 32, enc62_sha(a) == enc62_sha(b) ensures a == b {}
+
+proof fn cpath_inj(dir: Seq<char>, a: Seq<u8>, b: Seq<u8>) requires a.len() == 32, b.len() == 32, cpath(dir, a) == cpath(dir, b) ensures a == b
 {
     let pa = cpath(dir, a); let pb = cpath(dir, b);
     let k = dir.len() as int + 1;
